@@ -6,6 +6,13 @@ from simenv import *
 
 SNAMES = [s.name for s in SupvisorsStates]
 PERIOD = 5 * UNIT
+PSNAME = {0: 'STOPPED', 10: 'STARTING', 20: 'RUNNING', 30: 'BACKOFF', 40: 'STOPPING', 100: 'EXITED', 200: 'FATAL', 1000: 'UNKNOWN'}
+from supervisor import events as _sev
+PEVENTS = {0: _sev.ProcessStateStoppedEvent, 10: _sev.ProcessStateStartingEvent, 20: _sev.ProcessStateRunningEvent,
+           30: _sev.ProcessStateBackoffEvent, 40: _sev.ProcessStateStoppingEvent, 100: _sev.ProcessStateExitedEvent,
+           200: _sev.ProcessStateFatalEvent}
+# what a Supervisor can do next with a process in a given state
+PNEXT = {0: [10], 100: [10], 200: [10], 1000: [10], 10: [20, 20, 30, 40], 20: [40, 100, 100], 30: [10, 10, 200], 40: [0]}
 
 
 class RecSim(Sim):
@@ -88,6 +95,41 @@ class RecSim(Sim):
     def _from_fsm_fail(self):
         f = sys._getframe(2)
         return f.f_code.co_filename.endswith('statemachine.py') and f.f_code.co_name == '_master_next'
+
+    # ---- the process table of the local Supervisor (only used by the schedules with programs)
+    def set_programs(self, nproc, known):
+        self.nproc = nproc; self.known = list(known)
+        self.truth = {p: {'state': 0, 'expected': True} for p in known}
+        self.rpc.get_all_local_process_info = self.all_info
+        self.supervisor_data.update_start = lambda ns: None
+        self.supervisor_data.update_stop = lambda ns: None
+
+    def all_info(self):
+        now = T[0] / UNIT; out = []
+        for p in self.known:
+            t = self.truth[p]; st = t['state']
+            out.append({'group': 'app', 'name': f'p{p}', 'state': st, 'statename': PSNAME[st], 'start': 0, 'stop': 0, 'now': int(1e6 + now),
+                        'pid': 0, 'description': '', 'spawnerr': '', 'expected': t['expected'], 'startsecs': 1, 'stopwaitsecs': 5,
+                        'extra_args': '', 'disabled': False, 'now_monotonic': now, 'start_monotonic': 0.0, 'stop_monotonic': 0.0,
+                        'program_name': f'p{p}', 'process_index': 0, 'has_stdout': False, 'has_stderr': False})
+        return out
+
+    def proc_event(self, p, state, expected=True):
+        """ the local Supervisor notifies a process state change: the REAL SupervisorListener.on_process_state """
+        self._fail_marked = False
+        self.truth[p] = {'state': state, 'expected': expected}
+        proc = Mock(); proc.group.config.name = 'app'; proc.config.name = f'p{p}'; proc.pid = 0 if state in (0, 100, 200) else 4000 + p
+        proc.spawnerr = ''; proc.extra_args = ''; proc.supvisors_config.program_config.disabled = False; proc.backoff = 0
+        cls = PEVENTS[state]
+        ev = cls(proc, 0, expected) if state == 100 else cls(proc, 0)
+        self.listener.on_process_state(ev)
+
+    def process_view(self, p):
+        app = self.context.applications.get('app')
+        proc = app.processes.get(f'p{p}') if app else None
+        if proc is None: return '1000:-'
+        run = sorted(self.idx[x] for x in proc.running_identifiers)
+        return f"{int(proc.state)}:{''.join(map(str, run)) if run else '-'}"
 
     def cfg_line(self):
         o = self.options; so = o.synchro_options; n = self.n
@@ -187,8 +229,10 @@ def gobs(sims):
         tr += [f'{s.k - 1}:{x}' for x in s.trace]
         it += [f'{s.k - 1}:{j}:{c}' for j, c in s.itrace]
         s.logger.crit = []; s.emitted = []; s.trace = []; s.itrace = []; s.last_err = None
+    nproc = getattr(sims[0], 'nproc', 0)
+    pv = '' if not nproc else ' pv=[' + '/'.join(','.join(s.process_view(p) for p in range(nproc)) for s in sims) + ']'
     return (f"{' '.join(one(s) for s in sims)} q={qs} in={ib} err=[{','.join(errs)}] act=[{','.join(acts)}]"
-            f" tr=[{','.join(tr)}] it=[{','.join(it)}] ob=0"), tbs
+            f" tr=[{','.join(tr)}] it=[{','.join(it)}] ob=0{pv}"), tbs
 
 
 class Recorder:
@@ -198,7 +242,13 @@ class Recorder:
     def header(self, sims):
         self.lines.append('reset'); self.obs.append('ok')
         for s in sims: self.lines.append(s.cfg_line()); self.obs.append('ok')
-        self.lines.append(f'start {T[0]}'); self.obs.append('ok')
+        nproc = getattr(sims[0], 'nproc', 0)
+        if nproc:
+            known = '/'.join(','.join(map(str, s.known)) if s.known else '-' for s in sims)
+            self.lines.append(f'start {T[0]} {nproc} {known}')
+        else:
+            self.lines.append(f'start {T[0]}')
+        self.obs.append('ok')
 
     def rec(self, sims, action):
         oracle = ','.join(x for s in sims for x in s.oracle)
@@ -226,7 +276,7 @@ def gen_params(rnd, nmax=4):
     return n, opts
 
 
-def run_schedule(seed, rec, nmax=4, max_ticks=40, faults_max=10, quiet_ticks=0, sim_cls=RecSim, allow_restart=True, mismatch=0.0, inject=False, sim_cls_name=None, heal_at_end=False, rpc_names=('restart', 'shutdown', 'end_sync', 'end_sync')):
+def run_schedule(seed, rec, nmax=4, max_ticks=40, faults_max=10, quiet_ticks=0, sim_cls=RecSim, allow_restart=True, mismatch=0.0, inject=False, sim_cls_name=None, heal_at_end=False, rpc_names=('restart', 'shutdown', 'end_sync', 'end_sync'), procs=False, pev_rate=0.25):
     """ one generated cluster schedule; returns (sims, net, opts, n, info) """
     rnd = random.Random(seed)
     if sim_cls_name:
@@ -238,6 +288,9 @@ def run_schedule(seed, rec, nmax=4, max_ticks=40, faults_max=10, quiet_ticks=0, 
                 continue
             if hasattr(mod, sim_cls_name): sim_cls = getattr(mod, sim_cls_name); break
     n, opts = gen_params(rnd, nmax)
+    if procs and opts['supvisors_failure_strategy'] == 'SHUTDOWN':
+        # the ending phase stops the running processes through the Stopper, which the cluster model does not contain
+        opts['supvisors_failure_strategy'] = 'CONTINUE'
     T[0] = 10 * UNIT
     net = Net()
     # option mismatches between instances (refused at the handshake): a separate, minority stream
@@ -249,6 +302,14 @@ def run_schedule(seed, rec, nmax=4, max_ticks=40, faults_max=10, quiet_ticks=0, 
                'conciliation_strategy': ['USER', 'STOP', 'SENICIDE'], 'supvisors_failure_strategy': ['CONTINUE', 'RESYNC', 'SHUTDOWN']}[which]
         per[k][which] = rnd.choice([x for x in alt if x != opts[which]])
     sims = [sim_cls(net, k, n, per[k]) for k in range(1, n + 1)]
+    nproc = 0; known = {}
+    if procs:
+        # sparse to dense process activity: with a dense one every stale entry is soon overwritten by the next event
+        pev_rate = rnd.choice([0.002, 0.005, 0.02, 0.1])
+        nproc = rnd.randint(1, 3)
+        for k in range(1, n + 1):
+            known[k] = [p for p in range(nproc) if rnd.random() < 0.8]
+        for s in sims: s.set_programs(nproc, known[s.k])
     rec.header(sims)
     next_tick = {s.k: T[0] + rnd.randint(1, PERIOD) for s in sims}
     started = set(); held = {}
@@ -257,7 +318,7 @@ def run_schedule(seed, rec, nmax=4, max_ticks=40, faults_max=10, quiet_ticks=0, 
     faults = rnd.randint(0, faults_max)
     lo, hi = T[0] + 6 * PERIOD, end_faults - 4 * PERIOD
     fault_times = sorted(rnd.randint(lo, hi) for _ in range(faults)) if hi > lo else []
-    info = {'faults': [], 'end_faults': end_faults}
+    info = {'faults': [], 'end_faults': end_faults, 'per': per, 'programs': (nproc, known) if procs else None}
     healed = False
     while T[0] < end:
         T[0] += rnd.randint(1, 40)
@@ -293,6 +354,7 @@ def run_schedule(seed, rec, nmax=4, max_ticks=40, faults_max=10, quiet_ticks=0, 
             elif kind == 'restart' and allow_restart and s.identifier in net.down:
                 # Supervisor restarted (possibly faster than the failure detection of its peers)
                 new = sim_cls(net, s.k, n, per[s.k]); sims[s.k - 1] = new; net.down.discard(new.identifier)
+                if procs: new.set_programs(nproc, known[s.k])
                 started.discard(s.k); next_tick[s.k] = T[0] + rnd.randint(1, PERIOD)
                 rec.rec(sims, f'restart {s.k - 1}'); info['faults'].append(kind)
             elif kind == 'cut':
@@ -321,6 +383,14 @@ def run_schedule(seed, rec, nmax=4, max_ticks=40, faults_max=10, quiet_ticks=0, 
                         started.add(s.k); s.on_running(); rec.rec(sims, f'running {s.k - 1}')
                     s.tick(); rec.rec(sims, f'tick {s.k - 1}')
                 next_tick[s.k] += PERIOD
+        if procs and rnd.random() < pev_rate and T[0] < end - 2 * PERIOD:
+            # a process changes state in the Supervisor of a live instance
+            cands = [s for s in sims if s.identifier not in net.down and s.k in started and s.known]
+            if cands:
+                s = rnd.choice(cands); p = rnd.choice(s.known)
+                st = rnd.choice(PNEXT[s.truth[p]['state']]); expected = rnd.random() < 0.7 if st == 100 else True
+                with watchdog(10): s.proc_event(p, st, expected)
+                rec.rec(sims, f'pev {s.k - 1} {p} {st} {int(expected)}'); info['pev'] = info.get('pev', 0) + 1
         acts = []
         for s in sims:
             if s.identifier in net.down: continue
@@ -339,6 +409,55 @@ def run_schedule(seed, rec, nmax=4, max_ticks=40, faults_max=10, quiet_ticks=0, 
                     tgt = a[1].idx[a[2].status.identifier]
                     a[2].step(); rec.rec(sims, f'exec {a[1].k - 1} {tgt}')
     return sims, net, opts, n, info
+
+
+def script_of(lines):
+    """ the global actions of a recorded schedule: [(time, 'action words')] (injections cannot be scripted) """
+    out = []
+    for l in lines:
+        if l.startswith('act '):
+            w = l.split('|')[0].split(';')[0].split()
+            out.append((int(w[1]), ' '.join(w[2:])))
+    return out
+
+
+def run_script(n, per, actions, rec, sim_cls=RecSim, programs=None):
+    """ replay a list of global actions on fresh real instances (an action that is not possible - nothing to deliver, instance
+        down - is skipped): every applied action is recorded, so that the model can be lock-stepped and the list can be
+        minimized by delta debugging.  `programs` = (nproc, {k: known}) """
+    T[0] = 10 * UNIT
+    net = Net()
+    sims = [sim_cls(net, k, n, per[k]) for k in range(1, n + 1)]
+    if programs:
+        for s in sims: s.set_programs(programs[0], programs[1][s.k])
+    rec.header(sims)
+    ids = sims[0].ids
+    for t, a in actions:
+        T[0] = max(T[0], t)
+        w = a.split(); kind = w[0]
+        s = sims[int(w[1])] if len(w) > 1 and w[1].isdigit() and int(w[1]) < n else None
+        up = s is not None and s.identifier not in net.down
+        with watchdog(10):
+            if kind == 'running' and up: s.on_running()
+            elif kind == 'tick' and up: s.tick()
+            elif kind == 'deliver' and up and s.inbox: s.deliver()
+            elif kind == 'exec' and up:
+                p = s.rpc_handler.proxy_server.proxies.get(ids[int(w[2])])
+                if not (p and p.queue): continue
+                p.step()
+            elif kind == 'pev' and up and programs and int(w[2]) in s.known: s.proc_event(int(w[2]), int(w[3]), w[4] == '1')
+            elif kind == 'crash' and up and len(net.down) < n - 1: net.down.add(s.identifier)
+            elif kind == 'restart' and s is not None and not up:
+                new = sim_cls(net, s.k, n, per[s.k]); sims[s.k - 1] = new; net.down.discard(new.identifier)
+                if programs: new.set_programs(programs[0], programs[1][s.k])
+            elif kind == 'cut' and s is not None: net.cut.add(frozenset((s.identifier, sims[int(w[2])].identifier)))
+            elif kind == 'heal': net.cut.clear()
+            elif kind == 'rpc' and up:
+                if w[2] == 'end_sync': s.rpc_call('end_sync', '' if w[3] == '-' else f'10.0.0.{int(w[3]) + 1}')
+                else: s.rpc_call(w[2])
+            else: continue
+        rec.rec(sims, a)
+    return sims, net
 
 
 def compare(chk, rec, layer='Net'):
@@ -365,7 +484,7 @@ def compare(chk, rec, layer='Net'):
 
 # ---------------------------------------------------------------------------------------------------------------
 def cluster_check(chk, prefixes, nontrivial, rule, quick_cases=40, thorough_cases=600, search_cases=200, sched_kwargs=None,
-                  extra_judge=None):
+                  extra_judge=None, post_judge=None):
     """ common body of the cluster-level checks: generated schedules on the real cluster, global lock-step with the Lean
         cluster model, Lean judges on the implementation observations (verdicts whose tag starts with one of `prefixes`).
         `nontrivial(rec_lines_obs) -> bool` classifies a schedule; `extra_judge(sims, net, opts, n, info, rec)` may add
@@ -419,8 +538,11 @@ def cluster_check(chk, prefixes, nontrivial, rule, quick_cases=40, thorough_case
                 chk.reject(f'{chk.prop}:{tag}', f'{v} after step {step} ({action})',
                            dict(base, step=step, action=action, verdict=v, impl_observation=impl_obs,
                                 prefix=[l.split('|')[0].strip() for l in rec.lines[a:a + step + 1]][-15:]))
-            for sig, what in extra:
-                chk.reject(sig, what, dict(base))
+            if post_judge:
+                extra = post_judge(extra, [l for l in model[a:b]], rec.lines[a:b], dict(base, n=n, info=info))
+            for item in extra:
+                sig, what = item[0], item[1]
+                chk.reject(sig, what, dict(base, **(item[2] if len(item) > 2 else {})))
         for _, k, tb in rec.tracebacks:
             stats['tracebacks'] += 1
         for k, v in rec.kinds.items(): stats['kinds'][k] = stats['kinds'].get(k, 0) + v
@@ -452,6 +574,7 @@ def replay_schedule(chk, path, prefixes):
     rec = Recorder()
     run_schedule(r['schedule_seed'], rec, **(r.get('kwargs') or {}))
     results, model = compare(chk, rec)
+    if hasattr(chk, 'replay_post'): chk.replay_post(model, rec)
     for res in results:
         if res['diff']: chk.disagree('Net', res['diff'])
         for step, v, action, impl_obs in res['verdicts']:
